@@ -48,7 +48,7 @@ def build_text(sc):
     nc = sc["ncols"]
     curves = [("DEPT", "M", "", "index")] + [("C%d" % j, "U", "", "curve %d" % j) for j in range(1, nc)]
     lines = docmodel.version_section(sc.get("vers", 2.0), "NO", sc.get("dlm"))
-    lines += docmodel.well_section(100.0, 101.0, 0.5, -999.25, "M", (("COMP", "", "ACME", "COMPANY"),), version=sc.get("vers", 2.0))
+    lines += docmodel.well_section(100.0, 101.0, 0.5, sc.get("null", "-999.25"), "M", (("COMP", "", "ACME", "COMPANY"),), version=sc.get("vers", 2.0))
     lines += docmodel.curve_section(curves)
     for s in sc.get("pre", []):
         lines += s
@@ -129,7 +129,11 @@ class C02(Prop):
         elif r < 0.6:
             pre = [list(g.choice(TAILS[:3]))]
         cfg = draw_read_channel(g, ascii_only=True)
-        return {"ncols": nc, "rows": rows, "noise": noise, "title": g.choice(TITLES), "tail": tail, "pre": pre,
+        null = "-999.25"
+        if g.random() < 0.25:
+            # a NULL value that also occurs in the index column (index samples are never nulled) or as an ordinary cell
+            null = g.choice([rows[g.randrange(nr)]["cells"][0], "0", "7", "1.5", "100", "101.0"])
+        return {"null": null, "case": g.choice(["upper", "upper", "lower", "preserve"]), "ncols": nc, "rows": rows, "noise": noise, "title": g.choice(TITLES), "tail": tail, "pre": pre,
                 "final_newline": g.random() < 0.6, "vers": g.choice([1.2, 2.0]), "dlm": dlm, "channel": cfg,
                 "policy": Policy.draw(st.io).to_json(), "force_fallback": st.fault.random() < 0.3}
 
@@ -137,7 +141,7 @@ class C02(Prop):
         fs = SimFS(policy=Policy.from_json(sc["policy"]))
         with fs, EngineTrace(force_numpy_fail=force) as tr:
             try:
-                las = read_via(fs, text, sc["channel"], {"engine": engine}, tag="c02")
+                las = read_via(fs, text, sc["channel"], {"engine": engine, "mnemonic_case": sc.get("case", "upper")}, tag="c02")
                 return las, None, tr, fs
             except Exception as e:
                 return None, e, tr, fs
